@@ -260,9 +260,48 @@ func genMixedFM(r *hx.Rand, blobs []blob) []string {
 		}
 		h := hashAs(fn, x.data)
 		if fn != "sha256" && r.Chance(1, 3) {
-			script = append(script, fmt.Sprintf("store %s %d %s", h, x.size, hexs(x.data)))
+			script = append(script, fmt.Sprintf("store %s %d %s", qualHash(int(functionEnums[fn]), h), x.size, hexs(x.data)))
 		}
 		line += fmt.Sprintf(" ; %s.%s %s %d", fn, insts[r.Intn(len(insts))], h, x.size)
 	}
 	return append(script, line)
+}
+
+var allFunctions = []string{"sha256", "md5", "sha1", "sha384", "sha512", "sha256tree", "blake3", "gitsha1"}
+
+// genACClientCase: the real Action Cache client against the real server, over every digest
+// function of the table - also those whose hash length alone does not identify them
+// (SHA256TREE and BLAKE3 look like SHA-256, GITSHA1 like SHA-1). AC keys are opaque: any hash
+// of the right length will do.
+func genACClientCase(r *hx.Rand) []string {
+	script := []string{"#cfg 16 1000"}
+	type k struct {
+		hash string
+		size int64
+	}
+	var keys []k
+	for i, n := 0, r.Range(1, 2); i < n; i++ {
+		keys = append(keys, k{hex.EncodeToString(r.Bytes(64)), int64(r.Range(1, 200))})
+	}
+	insts := []string{"-", "-", "a", "a_b"}
+	tag := func() (string, string) {
+		fn := allFunctions[r.Intn(len(allFunctions))]
+		x := keys[r.Intn(len(keys))]
+		return fn + "." + insts[r.Intn(len(insts))], fmt.Sprintf("%s %d", x.hash[:functionHashLen[fn]], x.size)
+	}
+	for i, n := 0, r.Range(3, 8); i < n; i++ {
+		if r.Chance(1, 15) {
+			script = append(script, genFault(r))
+		}
+		t, d := tag()
+		if r.Chance(1, 2) {
+			script = append(script, fmt.Sprintf("cacput %s %s %s", t, d, hexs(genActionResult(r))))
+			if r.Chance(1, 2) {
+				script = append(script, fmt.Sprintf("cacget %s %s", t, d))
+			}
+		} else {
+			script = append(script, fmt.Sprintf("cacget %s %s", t, d))
+		}
+	}
+	return script
 }
